@@ -90,6 +90,8 @@ def main(argv=None) -> int:
     try:
         mod = importlib.import_module(f"sa.props.{prop.lower()}")
         program = load_program()
+        from sa import common as _common
+        _common.PROGRAM = program
         if args.tier == "thorough":
             # deeper bounds for the path-sensitive engine
             from sa import flow
